@@ -34,6 +34,12 @@ def project_list(tier):
     out.append(("optional:tbad", ("f_optional", {}), {"njob": 2, "targets": ["nothing.txt"]}, False))
     out.append(("optional:tstatic", ("f_optional", {}), {"njob": 2, "targets": ["src.txt"]}, False))
     out.append(("optional:dirbad", ("f_optional", {}), {"njob": 2, "target_dirs": ["nowhere/"]}, False))
+    # builds restricted to targets in which a required step stays pending: steps outside the
+    # targets are pending too, by design, and must not be accounted for
+    out.append(("missing_input:t", ("f_fail", {"kind": "missing_input"}), {"njob": 2, "targets": ["n.txt"]}, False))
+    out.append(("resource:t", ("f_fail", {"kind": "resource"}), {"njob": 2, "resources": "cpu:2", "targets": ["s.txt"]}, False))
+    out.append(("fail:kg:t", ("f_fail", {"kind": "fail"}), {"njob": 2, "keep_going": True, "targets": ["d.txt"]}, False))
+    out.append(("defer_forever:t", ("f_fail", {"kind": "defer_forever"}), {"njob": 2, "targets": ["o.txt"]}, False))
     out.append(("chain:drain", ("f_chain", {}), {"njob": 2}, True))
     out.append(("fail:drain", ("f_fail", {"kind": "fail"}), {"njob": 2, "keep_going": True}, True))
     out.append(("glob_product", ("f_twoplans", {"kind": "glob_vs_output_conflict"}), {"njob": 1}, False))
